@@ -229,6 +229,82 @@ func CheckMap(m util.MerklePatriciaTrieI, model map[string][]byte, absent []stri
 	return ""
 }
 
+// CheckIterVariants exercises the other traversal entry points on the same state: Iterate over all node kinds (the node
+// keys handed to the handler must be exactly the reachable stored nodes, each at its position, the value pairs exactly
+// the model), IterateFrom the root (same pairs as Iterate), and a handler error (must stop the traversal and come back).
+func CheckIterVariants(m *util.MerklePatriciaTrie, model map[string][]byte, nodes []WalkedNode) string {
+	want := map[string]string{}
+	for _, w := range nodes {
+		want[string(w.Key)] = w.Path
+	}
+	vals := map[string][]byte{}
+	seen := map[string]bool{}
+	var bad string
+	err := m.Iterate(context.Background(), func(ctx context.Context, path util.Path, key util.Key, node util.Node) error {
+		if node == nil {
+			return nil
+		}
+		if vn, ok := node.(*util.ValueNode); ok {
+			p := string(path)
+			if _, had := vals[p]; had {
+				bad = fmt.Sprintf("value at %q handed out twice", p)
+			}
+			vals[p] = append([]byte(nil), vn.GetValueBytes()...)
+			return nil
+		}
+		wp, ok := want[string(key)]
+		if !ok {
+			bad = fmt.Sprintf("node %x at %q is not a reachable stored node", key, path)
+		} else if wp != string(path) && !seen[string(key)] {
+			// identical sub-tries share a key; only the first position is recorded by the walker
+			if !bytes.Equal(node.GetHashBytes(), key) {
+				bad = fmt.Sprintf("node at %q handed out under key %x, its hash is %x", path, key, node.GetHashBytes())
+			}
+		}
+		seen[string(key)] = true
+		return nil
+	}, util.NodeTypesAll)
+	if err != nil {
+		return fmt.Sprintf("Iterate over all node kinds failed: %v", err)
+	}
+	if bad != "" {
+		return "Iterate over all node kinds: " + bad
+	}
+	if len(seen) != len(want) {
+		return fmt.Sprintf("Iterate over all node kinds visited %d distinct nodes, %d are reachable in the store", len(seen), len(want))
+	}
+	if !EqualContent(vals, model) {
+		return fmt.Sprintf("Iterate over all node kinds yields values %s, model is %s", FmtContent(vals), FmtContent(model))
+	}
+	from := map[string][]byte{}
+	if root := m.GetRoot(); len(root) > 0 {
+		err = m.IterateFrom(context.Background(), root, func(ctx context.Context, path util.Path, key util.Key, node util.Node) error {
+			if vn, ok := node.(*util.ValueNode); ok {
+				from[string(path)] = append([]byte(nil), vn.GetValueBytes()...)
+			}
+			return nil
+		}, util.NodeTypeValueNode)
+		if err != nil {
+			return fmt.Sprintf("IterateFrom(root) failed: %v", err)
+		}
+		if !EqualContent(from, model) {
+			return fmt.Sprintf("IterateFrom(root) yields %s, model is %s", FmtContent(from), FmtContent(model))
+		}
+	}
+	if len(model) > 0 {
+		stop := errors.New("stop")
+		calls := 0
+		err = m.Iterate(context.Background(), func(ctx context.Context, path util.Path, key util.Key, node util.Node) error {
+			calls++
+			return stop
+		}, util.NodeTypeValueNode)
+		if err != stop || calls != 1 {
+			return fmt.Sprintf("a handler error after the first value: Iterate returned %v after %d handler calls", err, calls)
+		}
+	}
+	return ""
+}
+
 // AbsentProbes returns paths related to the model's live paths (prefixes, extensions, siblings, empty) plus fresh ones.
 func AbsentProbes(g *PathGen, model map[string][]byte) []string {
 	live := SortedKeys(model)
